@@ -23,13 +23,17 @@ import numpy as np  # noqa: E402
 S = Suite(
     "C10",
     what="multi-level request vs single-level requests and full-column request; returned Z, X, Y; "
-         "top-node slice vs the same node made interior by a thin constant layer on top",
+         "top-node slice vs the same node made interior by a thin constant layer on top; the same "
+         "through parse_config_dict + run_bldfm_single with domain.output_levels / full_output",
     bound="vertical grids nz 6..33 (closure MOST/CONSTANT and hand-built anisotropic / constant "
           "columns), level selections: ascending, descending, unsorted, with the surface node, with "
           "the top node, one-element, full column (forward and reversed); level argument as python "
           "int, numpy integer, list, int64 array; grids 6..16 x 6..12, halo 0 / None / "
           "incommensurate, truncated and clamped modes; footprint and dispersion, numeric and "
-          "analytic, single and double precision; distinct in-range levels only; a sample",
+          "analytic, single and double precision; distinct in-range levels (solver calls); through "
+          "the configuration-driven interface: output_levels ascending / descending / unsorted / "
+          "with a level listed twice / one level, and full_output, nz 6..9, default / single / "
+          "double precision, closures MOST/MOSTM/CONSTANT (analytic); a sample",
     rule="slice k of the multi-level result equals the single-level result for levels[k] within "
          "1e-9 (double) / 1e-5 (single) of the slice maximum; Z[k]==z[levels[k]], X[j,i]==i*dx, "
          "Y[j,i]==j*dy exactly up to 1e-12 relative; shapes (m, ny, nx) squeezed; top-node kind at "
@@ -309,6 +313,80 @@ def top_node(nx, ny, dx, dy, halo, modes, footprint, precision, im, jm, prof, se
         measured=worst / tol)
 
 
+# ------------------------------------------------------------------ configuration-driven interface
+def _run_interface(raw, levels):
+    """parse_config_dict + run_bldfm_single with domain.output_levels = levels
+    ("full" -> full_output=True and no output_levels)."""
+    import copy
+    import bldfm.config as cfg
+    from bldfm.config_parser import parse_config_dict
+    from bldfm.interface import run_bldfm_single
+    cfg.NUM_THREADS = 1
+    raw = copy.deepcopy(raw)
+    if isinstance(levels, str):
+        raw["domain"]["full_output"] = True
+    else:
+        raw["domain"]["output_levels"] = [int(l) for l in levels]
+    config = parse_config_dict(raw)
+    res = run_bldfm_single(config, config.towers[0], 0)
+    X, Y, Z = res["grid"]
+    return np.asarray(X), np.asarray(Y), np.asarray(Z), np.asarray(res["conc"]), np.asarray(res["flx"])
+
+
+def multiplicity_class(levels):
+    return "repeated" if len(set(levels)) < len(levels) else order_class(levels)
+
+
+@S.kind("interface-levels")
+def interface_levels(raw, levels):
+    """The anchor 'interface passes output_levels / full_output lists through': a run driven by a
+    configuration whose output_levels is any ordered selection (ascending, descending, unsorted,
+    with a level listed twice) returns m = len(output_levels) slices; slice k equals the run of
+    the same configuration with output_levels = [levels[k]], and Z of slice k is that run's Z.
+    levels == "full": full_output, slice k against output_levels = [k], k = 0..nz."""
+    sol = raw.get("solver") or {}
+    precision = sol.get("precision", "single")
+    tol = TOL[precision]
+    dom = raw["domain"]
+    ny, nx = dom["ny"], dom["nx"]
+    req = list(range(dom["nz"] + 1)) if isinstance(levels, str) else [int(l) for l in levels]
+    oc = "full-output" if isinstance(levels, str) else multiplicity_class(req)
+    m = len(req)
+    tag = "interface %s%s%s levels=%s" % ("analytic " if sol.get("analytic") else "",
+                                          "fp " if sol.get("footprint") else "disp ", precision, levels)
+    try:
+        X, Y, Z, C, F = _run_interface(raw, levels)
+    except Exception as e:
+        return Verdict(False, "%s: %s: %s" % (tag, type(e).__name__, str(e)[:160]),
+                       key="interface-raises-" + oc)
+    want = (ny, nx) if m == 1 else (m, ny, nx)
+    got = [A.shape for A in (C, F, X, Y, Z)]
+    if any(g != want for g in got):
+        return Verdict(False, "%s: shapes conc/flx/X/Y/Z %s want %s" % (tag, got, want),
+                       key="interface-shape-" + oc)
+    C3, F3, Z3 = (A.reshape(m, ny, nx) for A in (C, F, Z))
+    singles = {}
+    worst, where, zbad = 0.0, None, []
+    for k, l in enumerate(req):
+        if l not in singles:
+            _, _, Z1, c1, f1 = _run_interface(raw, [l])
+            if c1.shape != (ny, nx):
+                return Verdict(False, "%s: single-level run returns %s" % (tag, c1.shape),
+                               key="interface-shape-single")
+            singles[l] = (Z1, c1, f1)
+        Z1, c1, f1 = singles[l]
+        if not np.array_equal(Z3[k], Z1):
+            zbad.append("Z[%d]=%.6g but level %d is at %.6g" % (k, Z3[k].flat[0], l, Z1.flat[0]))
+        e = max(_cmp(C3[k], c1), _cmp(F3[k], f1))
+        if e > worst:
+            worst, where = e, (k, l)
+    if zbad:
+        return Verdict(False, "%s: %s" % (tag, "; ".join(zbad[:3])), key="interface-grid-" + oc)
+    return Verdict(worst <= tol, "%s: worst slice/single relerr %.2e at (k,level)=%s tol %.0e" % (
+        tag, worst, where, tol), nontrivial=(m > 1), key="interface-levels-" + oc,
+        measured=worst / tol)
+
+
 # ------------------------------------------------------------------ bounded family
 PROFILES = [
     dict(kind="closure", closure="MOST", n=4, zm=4.0, wind=[3.0, 1.0], ustar=0.4, mol=-50.0),
@@ -394,6 +472,50 @@ def generate(tier, rng):
                         p["prof"] = CONST[0] if analytic else PROFILES[1]
                         p.update(levels=levels, form=form)
                         yield "multi-vs-single", p
+    # configuration-driven interface: output_levels in any order / with repeats, full_output
+    def raw_config(footprint, analytic, precision):
+        nx, ny = rng.choice([(12, 8), (16, 10), (10, 12)])
+        nz = rng.choice([6, 8, 9])
+        dom = dict(nx=nx, ny=ny, xmax=nx * rng.choice([10.0, 12.5]), ymax=ny * rng.choice([7.5, 10.0]),
+                   nz=nz, modes=rng.choice([[512, 512], [8, 6]]), halo=rng.choice([0.0, 25.0, None]),
+                   ref_lat=50.95, ref_lon=11.586)
+        if dom["halo"] is None:
+            del dom["halo"]
+        sol = dict(closure="CONSTANT" if analytic else rng.choice(["MOST", "MOSTM", "CONSTANT"]),
+                   footprint=footprint, analytic=analytic)
+        if precision is not None:
+            sol["precision"] = precision
+        return dict(domain=dom,
+                    towers=[dict(name="T", lat=50.95 + rng.choice([0.0, 2e-4]),
+                                 lon=11.586 + rng.choice([0.0, 3e-4]), z_m=rng.choice([3.0, 5.0]))],
+                    met=dict(ustar=rng.choice([0.3, 0.5]), mol=rng.choice([-80.0, 150.0, 1e9]),
+                             wind_speed=rng.choice([3.0, 5.0]), wind_dir=rng.uniform(0.0, 360.0)),
+                    solver=sol), nz
+
+    def interface_selection(nz, style):
+        if style == "repeated":
+            a, b = rng.sample(range(nz + 1), 2)
+            return rng.choice([[a, a], [a, b, a], [b, a, a], [a, b, b, a]])
+        if style == "full":
+            return "full"
+        top = nz + 1
+        sel = selection(top, style)
+        return sel
+
+    ISTYLES = ["descending", "unsorted", "repeated", "ascending", "with-top", "full", "one"]
+    witnesses = [[8, 4, 1], [6, 2, 5], [3, 3], [2, 5, 2], [1, 4, 8], [8, 0]]
+    for footprint in (False, True):
+        for analytic in (False, True):
+            for precision in ("double", None):
+                for w in witnesses[:3] if (analytic or precision is None) else witnesses:
+                    raw, _nz = raw_config(footprint, analytic, precision)
+                    raw["domain"]["nz"] = 8
+                    yield "interface-levels", dict(raw=raw, levels=w)
+    for i in range(42 if tier == "quick" else 700):
+        raw, nz = raw_config(rng.random() < 0.5, rng.random() < 0.25,
+                             rng.choice(["double", "double", "single", None]))
+        yield "interface-levels", dict(raw=raw, levels=interface_selection(nz, ISTYLES[i % len(ISTYLES)]))
+
     STYLES = ["ascending", "descending", "unsorted", "with-top", "with-surface", "one"]
     for i in range(n_random):
         p = common()
